@@ -66,7 +66,13 @@ def eval(
 
 def load(path: Union[str, DDSPath, pathlib.Path]) -> Any:
     path_ = DDSPathUtils.create(path)
-    key = _store().fetch_paths([path_]).get(path_)
+    key: Optional[PyHash]
+    if _eval_ctx is not None and path_ in _eval_ctx.requested_paths:
+        # The path is produced by the current evaluation: it is committed to the store
+        # only at the end of the evaluation, but its blob is already available.
+        key = _eval_ctx.requested_paths[path_]
+    else:
+        key = _store().fetch_paths([path_]).get(path_)
     if key is None:
         raise DDSException(f"The store {_store()} did not return path {path_}")
     else:
